@@ -13,7 +13,7 @@ import (
 func init() { Registry["C18"] = checkC18 }
 
 func checkC18(p *core.Prog, r *core.Report) {
-	r.Explanation = "Decides structural necessary conditions of disconnect semantics: (R1) Server.handle reaches serverProtocol.Close() on every path after a successful protocol detection (the failing path closes the stream); (R2) every Close of a connection protocol is a test-and-set under its mutex that takes ownership of the will queue (copied to a local, field cleared) before the mutex is released, and drains the local copy with every queued command handed to the engine entry regardless of earlier results; (R3) will registration never executes: the registration arms push to the will queue, rewrite the command type to LOCK/UNLOCK before the push (otherwise Close would only re-register it), and call no engine function; (R4) registration uses Push (tail) and the drain uses Pop (head) of the same queue; (R5) proxies are repointed to the default protocol inside the critical section that sets closed, and AddProxy reports success only after tracking the proxy (and refuses when closed); (R6) replies are re-routed by the connection's own client id, never to the closing connection itself, and Close removes the client-id entry only if it still maps to this connection. (R7) the code that registers a will (pushes the command object onto the connection's will queue) does not return that object to the command pool on the same path. (R8) the will drain dispatches through the closing protocol object itself, and a loop repointing every tracked proxy dominates the truncation of the proxy list. (R9) the text protocol sends a reply on lockWaiter only after testing the connection not closed, so the will drain cannot block on a channel nobody reads. NOT decided: exactly-once when a close races the drain on a follower whose leader is unreachable, leaks of queued requests, delivery after reconnect."
+	r.Explanation = "Decides structural necessary conditions of disconnect semantics: (R1) Server.handle reaches serverProtocol.Close() on every path after a successful protocol detection (the failing path closes the stream); (R2) every Close of a connection protocol is a test-and-set under its mutex that takes ownership of the will queue (copied to a local, field cleared) before the mutex is released, and drains the local copy with every queued command handed to the engine entry regardless of earlier results; (R3) will registration never executes: the registration arms push to the will queue, rewrite the command type to LOCK/UNLOCK before the push (otherwise Close would only re-register it), and call no engine function; (R4) registration uses Push (tail) and the drain uses Pop (head) of the same queue; (R5) proxies are repointed to the default protocol inside the critical section that sets closed, and AddProxy reports success only after tracking the proxy (and refuses when closed); (R6) replies are re-routed by the connection's own client id, never to the closing connection itself, and Close removes the client-id entry only if it still maps to this connection. (R7) the code that registers a will (pushes the command object onto the connection's will queue) does not return that object to the command pool on the same path. (R8) the will drain dispatches through the closing protocol object itself, and a loop repointing every tracked proxy dominates the truncation of the proxy list. (R9) the text protocol sends a reply on lockWaiter only after testing the connection not closed, so the will drain cannot block on a channel nobody reads. (R10) a lock command handed to the local engine is not freed by the caller. (R11) a re-INIT overwrites the proxy's client id only after the previous id's table entry has been removed. (R12) the proxy re-routes through the client table only for an announced (non-zero) client id (a real defect was repaired). NOT decided: exactly-once when a close races the drain on a follower whose leader is unreachable, leaks of queued requests, delivery after reconnect."
 	r.Assumptions = []string{"Go type checker and go/ssa are correct for /repo"}
 	c18R1(p, r)
 	c18R2(p, r)
@@ -24,6 +24,7 @@ func checkC18(p *core.Prog, r *core.Report) {
 	c18R9(p, r)
 	c18R10(p, r)
 	c18R11(p, r)
+	c18R12(p, r)
 	c18R5(p, r)
 }
 
@@ -1063,4 +1064,54 @@ func c18R11(p *core.Prog, r *core.Report) {
 		}
 	}
 	r.Hold(rule, key, p.InstrPos(stores[0]), "table access keyed by the previous id")
+}
+
+// c18R12: a vanished connection's proxy is re-adopted by "the connection of
+// the same client" through the client table, keyed by the id the connection
+// announced with INIT. A connection that never announced one has the all-zero
+// id; looking that up adopts its queued requests into whatever connection
+// announced the zero id - an unrelated client receives the grant. The lookup
+// is made only for an id that was announced (tested non-zero).
+func c18R12(p *core.Prog, r *core.Report) {
+	const rule = "C18/R12"
+	r.Rule(rule, "ProxyServerProtocol re-routes a reply through the client table only after testing that its client id was announced (non-zero)", 1)
+	fn := mustFunc(p, r, "server.(*ProxyServerProtocol).ProcessLockResultCommandLocked")
+	if fn == nil {
+		return
+	}
+	n, bad, badTrace := 0, "", []string(nil)
+	ex := core.NewExplorer(p, core.Hooks{
+		Track: func(x *core.X, a core.Atom) bool { return strings.Contains(a.String(), ".clientId") },
+		Instr: func(x *core.X) {
+			lk, ok := x.Ins.(*ssa.Lookup)
+			if !ok || !x.Top() {
+				return
+			}
+			if _, isMap := lk.X.Type().Underlying().(*types.Map); !isMap || !strings.Contains(x.Canon(lk.Index).S, ".clientId") {
+				return
+			}
+			n++
+			tested := false
+			for h := range x.St.Hist {
+				if strings.Contains(h, ".clientId") && strings.Contains(h, " != ") {
+					tested = true
+				}
+			}
+			if !tested && bad == "" {
+				bad, badTrace = x.Pos(), x.St.Trace
+			}
+		},
+	})
+	ex.Run(fn, nil)
+	key := "server.(*ProxyServerProtocol).ProcessLockResultCommandLocked: table lookup by an announced id"
+	switch {
+	case ex.Imprecise != "":
+		r.Fail("C18/R12: %s", ex.Imprecise)
+	case n == 0:
+		r.Fail("C18/R12: no client-table lookup found")
+	case bad != "":
+		r.Violate(rule, key, bad, "the proxy of a vanished connection is looked up in the client table by an id that may never have been announced (all zero): a connection that sent no INIT, queued a request and disconnected has its grant delivered to whichever client announced the zero id", badTrace)
+	default:
+		r.Hold(rule, key, p.Pos(fn.Pos()), "id tested before the lookup")
+	}
 }
